@@ -272,7 +272,16 @@ def r6(ctx):
     ctx.floor(R, 3)
 
 
+def r7(ctx):
+    R = "C18-R7"
+    ctx.rule(R, "ring fds and file fds are monotone counters (never reused within a host): a completion can never be attributed to a newer ring / file")
+    counter_rule(ctx, R, "turmoil_io_uring::host::IoUringHostState::next_ring_fd")
+    counter_rule(ctx, R, "turmoil_fs::Fs::next_fd")
+    ctx.floor(R, 2)
+
+
 def run(ctx):
+    r7(ctx)
     r1(ctx)
     r2(ctx)
     r3(ctx)
